@@ -130,10 +130,16 @@ class BaseNode(Node):
                         raise Exception("Could not convert raw value to type:",self.code,value)
         return value
 
+    def has_raw_value(self):
+        """ A raw value is present unless it is None or the empty placeholder text
+        (numbers such as 0 and arrays delivered by functions are values)
+        """
+        return not (self.value_raw is None or (isinstance(self.value_raw, str) and self.value_raw==''))
+
     def set_value(self, value=None):
         """ Set value using value_raw or arbitrary value
         """
-        if value is None and self.value_raw:
+        if value is None and self.has_raw_value():
             self.value = self.cast_value()
         elif value is not None:
             self.value = value
